@@ -26,6 +26,15 @@ extern MPT_STRUCT(node) *mpt_node_assign(MPT_STRUCT(node) **base, const MPT_STRU
 	const char *curr;
 	int clen;
 	
+	/* refuse before anything is linked: every element must fit an identifier */
+	{
+		MPT_STRUCT(path) tmp = path;
+		while ((clen = mpt_path_next(&tmp)) >= 0) {
+			if (clen >= UINT16_MAX) {
+				return 0;
+			}
+		}
+	}
 	if ((conf = mpt_node_query(*base, &path))) {
 		if (!path.len) {
 			if (mpt_meta_set(&conf->_meta, val) < 0) {
@@ -37,15 +46,6 @@ extern MPT_STRUCT(node) *mpt_node_assign(MPT_STRUCT(node) **base, const MPT_STRU
 	}
 	curr = path.base + path.off;
 	
-	/* refuse before anything is linked: every remaining element must fit an identifier */
-	{
-		MPT_STRUCT(path) tmp = path;
-		while ((clen = mpt_path_next(&tmp)) >= 0) {
-			if (clen >= UINT16_MAX) {
-				return 0;
-			}
-		}
-	}
 	/* create metatype for value */
 	mt = 0;
 	if (val && !(mt = mpt_meta_new(val))) {
